@@ -21,6 +21,7 @@ func init() {
 			"*Allocation objects handed out by AllocateNAT/GetAllocation are not mutated by callers",
 			"the pool slice and the maps are reachable only through the Manager",
 		},
+		Select: notDerivedKeyEnsures,
 		Trusted: []string{
 			"cilium/ebpf (*Map).Put/Update/Delete only read their arguments and have no effect on Go state (error result unconstrained)",
 			"nat.Logger.LogAllocation / LogDeallocation modify only Logger fields (buffer, portBlockBuffer, currentFile, currentSize); bodies not verified",
